@@ -75,6 +75,7 @@ class Recorder:
 
 
 REC = [None]                 # the active recorder (None: not recording)
+LAST_SAMPLER = [None]
 POOL = {"kind": "real", "workers": None, "order": None}
 
 
@@ -235,12 +236,15 @@ def limbs(n):
     return out
 
 
-def one_run(pa, c, d, cfg, samplers):
-    """Run compute_gamma under the current executor; returns (GammaResults or None, trace record, exception)."""
+def one_run(pa, c, d, cfg, samplers, sampler=None):
+    """Run compute_gamma under the current executor; returns (GammaResults or None, trace record, exception).
+    `sampler`: an already used sampler object to be reused (a fresh one otherwise)."""
     RecStat, RecShuffle = samplers
     rec = Recorder()
     rec.sid(c)        # the input continuum is sample id 0
-    sampler = RecStat() if cfg["sampler"] == "stat" else RecShuffle(pivot_type=cfg["sampler"])
+    if sampler is None:
+        sampler = RecStat() if cfg["sampler"] == "stat" else RecShuffle(pivot_type=cfg["sampler"])
+    LAST_SAMPLER[0] = sampler
     np.random.seed(cfg["seed"])
     REC[0] = rec
     try:
@@ -292,7 +296,23 @@ def result_vector(res, d, pa, with_cat):
     return [float(x).hex() for x in vec]
 
 
-def gen_config(pa, rng, quick, identical=False):
+def big_continuum(pa, rng):
+    """Large enough for measure_best_window_size to find windowing advantageous (4x20, 5x12, 3x50)."""
+    from pyannote.core import Segment
+    n_ann, per = rng.choice([(4, 20), (5, 12), (3, 50)])
+    c = pa.Continuum()
+    for a in range(n_ann):
+        t = 0
+        for _ in range(per):
+            t += rng.randint(0, 3)
+            dur = rng.randint(1, 4)
+            c.add(f"an{a}", Segment(t, t + dur), rng.choice(align.LABELS))
+            t += dur
+    return c
+
+
+def gen_config(pa, rng, quick, identical=False, force=None):
+    force = force or {}
     n_ann, mu = rng.choice([(2, 4), (3, 3), (2, 6), (4, 2), (3, 4)])
     c = align.random_continuum(pa, rng, n_ann, mu, unlabelled=0.0, grid=rng.random() < 0.6, allow_empty=False)
     if identical:
@@ -302,18 +322,22 @@ def gen_config(pa, rng, quick, identical=False):
         for a in range(n_ann):
             for s, dur, lab in units:
                 c.add(f"an{a}", Segment(s, s + dur), lab)
-    mode = rng.choice(["exact", "exact", "soft", "fast"])
-    sampler = rng.choice(["stat", "stat", "int_pivot", "float_pivot"])
+    mode = force.get("mode") or rng.choice(["exact", "exact", "soft", "fast"])
+    sampler = force.get("sampler") or rng.choice(["stat", "stat", "int_pivot", "float_pivot"])
+    if mode == "fast" and not identical and (force.get("big") or rng.random() < 0.5):
+        c = big_continuum(pa, rng)
     precision = rng.choice([None, None, "low", 0.3, 0.2, 0.5, 0.15] + ([] if quick else ["medium", 0.05]))
     anns = list(c.annotators)
     gt = None
-    if len(anns) > 2 and rng.random() < 0.4:
+    if len(anns) > 2 and (force.get("gt") or rng.random() < 0.4):
         gt = sorted(rng.sample(anns, rng.randint(2, len(anns))))
         if sampler != "stat" and all(len(c[a]) == 0 for a in gt):
             gt = None
     comb = rng.random() < 0.7
     d = pa.CombinedCategoricalDissimilarity(alpha=rng.choice([1, 3]), beta=rng.choice([1, 2]), delta_empty=rng.choice([1.0, 1.0, 2.0])) \
         if comb else pa.PositionalSporadicDissimilarity(delta_empty=rng.choice([1.0, 0.5]))
+    if len(c.annotators) >= 4 and c.num_units > 40 and precision not in (None, 0.5, 0.3):
+        precision = 0.3
     cfg = {"mode": mode, "sampler": sampler, "precision": precision, "n": rng.choice([1, 2, 3, 5, 8]), "gt": gt,
            "seed": rng.randint(0, 2 ** 31 - 1), "identical": identical, "combined": comb,
            "continuum": align.continuum_summary(c)}
@@ -383,12 +407,25 @@ def run_c05(tier, rep, pa):
             c, d, cfg = gen_config(pa, rng, quick, identical=rng.random() < 0.1)
             res, trace, ex = one_run(pa, c, d, cfg, samplers)
             if ex is not None:
-                rep.violation("gamma.raises", {"exception": repr(ex), "config": cfg})
+                rep.violation("gamma.raises", {"exception": repr(ex), "config": {x: y for x, y in cfg.items() if not x.startswith("_")}})
                 recs.append(None)
                 continue
+            used_sampler = LAST_SAMPLER[0]
             recs.append(trace)
             metas.append(cfg)
             rep.case(key=json.dumps([cfg["continuum"], cfg["mode"], cfg["sampler"], str(cfg["precision"]), cfg["n"], cfg["gt"]]))
+            if rng.random() < 0.25 and not cfg["identical"]:
+                # the same sampler object used again, on the same continuum, now with all annotators / another subset
+                anns = list(c.annotators)
+                cfg2 = dict(cfg, gt=None if cfg["gt"] else (sorted(rng.sample(anns, 2)) if len(anns) > 2 else None),
+                            seed=rng.randint(0, 2 ** 31 - 1), reused_sampler=True)
+                res2, trace2, ex2 = one_run(pa, c, d, cfg2, samplers, sampler=used_sampler)
+                if ex2 is not None:
+                    rep.violation("gamma.raises", {"exception": repr(ex2), "config": {k: v for k, v in cfg2.items() if not k.startswith("_")}})
+                else:
+                    recs.append(trace2)
+                    metas.append(cfg2)
+                    rep.case(key=json.dumps([cfg2["continuum"], cfg2["mode"], cfg2["sampler"], "reuse", cfg2["gt"]]))
     finally:
         probe.uninstall()
     recs = [r for r in recs if r is not None]
@@ -399,10 +436,10 @@ def run_c05(tier, rep, pa):
         bad = sorted(n for n in names if n in C05_CLAUSES)
         if bad:
             t = recs[k]
-            rep.violation("gamma." + "+".join(bad), {"clauses": bad, "config": metas[k],
+            rep.violation("gamma." + "+".join(bad), {"clauses": bad, "config": {x: y for x, y in metas[k].items() if not x.startswith("_")},
                                                      "trace": {x: y for x, y in t.items() if x not in ("draws", "submits", "chance")},
                                                      "chance_head": t["chance"][:8], "n_chance": len(t["chance"]), "n_draws": len(t["draws"])})
-    rep.sample({"config": metas[0], "trace_head": {x: (y[:4] if isinstance(y, list) else y) for x, y in recs[0].items()}})
+    rep.sample({"config": {x: y for x, y in metas[0].items() if not x.startswith("_")}, "trace_head": {x: (y[:4] if isinstance(y, list) else y) for x, y in recs[0].items()}})
     rep.extra["second_batches"] = sum(1 for r in recs if len(r["chance"]) > r["n"])
     rep.extra["runs_by_mode"] = {m: sum(1 for r in recs if r["mode"] == m) for m in ("exact", "soft", "fast")}
     if rep.extra["second_batches"] == 0:
@@ -436,8 +473,10 @@ def run_c06(tier, rep, pa):
     probe = AlgoProbe(pa)
     probe.install()
     configs = []
-    for _ in range(6 if quick else 40):
-        c, d, cfg = gen_config(pa, rng, True)
+    forced = [{"mode": "fast", "big": True, "sampler": "stat"}, {"mode": "fast", "big": True, "sampler": "int_pivot"},
+              {"sampler": "int_pivot", "gt": True}, {"sampler": "float_pivot", "gt": True}, {"mode": "soft"}, {"mode": "exact", "sampler": "stat", "gt": True}]
+    for k in range(8 if quick else 40):
+        c, d, cfg = gen_config(pa, rng, True, force=forced[k] if k < len(forced) else None)
         cfg.update(alpha=getattr(d, "alpha", 1), beta=getattr(d, "beta", 1), de=float(d.delta_empty))
         if cfg["precision"] in ("medium", 0.05):
             cfg["precision"] = 0.3
